@@ -206,6 +206,17 @@ func main() {
 			}
 		}
 		os.WriteFile(filepath.Join(*verif, "refs", "vocab_flat.txt"), []byte(strings.Join(flat, "\n")+"\n"), 0o644)
+		vi := varInits(L.Pkgs)
+		var keys []string
+		for k := range vi {
+			keys = append(keys, k)
+		}
+		sort.Strings(keys)
+		var lines []string
+		for _, k := range keys {
+			lines = append(lines, k+"\t"+vi[k])
+		}
+		os.WriteFile(filepath.Join(*verif, "refs", "var_inits.txt"), []byte(strings.Join(lines, "\n")+"\n"), 0o644)
 		return
 	}
 	if *listFn {
